@@ -1,5 +1,6 @@
 #!/bin/bash
 # Build the Lean library (models, proofs, property theorems) and the model driver. Offline.
+# The Gen tables are regenerated from /repo's current working tree by the translator first.
 set -e
-cd "$(dirname "$0")/lean"
-lake build 2>&1 | tail -20
+cd "$(dirname "$0")"
+/venv/bin/python harness/setup_build.py
